@@ -114,6 +114,10 @@ func (f *frame) callCommon(x ssa.CallInstruction, args []Val, st State, reach st
 func (f *frame) callStatic(x ssa.CallInstruction, callee *ssa.Function, args []Val, st State, reach string, resT types.Type) State {
 	c := f.c
 	com := x.Common()
+	if callee.Synthetic == "package initializer" {
+		// another package's initialiser: its effects are summarised by that package's global facts
+		return st
+	}
 	// 1. contract
 	if ct := c.eng.contractOf(callee); ct != nil && !(f.top && callee == f.fn && false) {
 		res, nst := f.applyContract(ct, callee, args, st, reach, x)
@@ -352,6 +356,7 @@ func (f *frame) callHavocRes(x ssa.CallInstruction, callee *ssa.Function, st Sta
 	nh := st.heap
 	if keep == nil || len(ms.m) > 0 {
 		nh = c.heapHavoc(st.heap, "call_"+sanitize(name), keep)
+		nh = c.restoreGlobals(st.heap, nh, ms)
 	}
 	na := c.fresh("alloc", "Int")
 	c.assume(reach, ge(na, st.alloc.term()))
@@ -485,7 +490,9 @@ func (f *frame) builtin(x ssa.CallInstruction, b *ssa.Builtin, args []Val, st St
 	if v, ok := x.(ssa.Value); ok {
 		resT = v.Type()
 	}
-	st = f.havocAll(st, reach, "builtin")
+	if b.Name() == "clear" {
+		st = f.havocAll(st, reach, "builtin")
+	}
 	f.setResult(x, c.freshVal("bi", resT, reach, st.alloc.term()))
 	return st
 }
